@@ -54,13 +54,17 @@ def oracle(ctx, case, real, rt):
     collect(prog)
     i = 0
     while i < len(writes):
-        m, has_ser = writes[i]
+        m, has_ser, declared = writes[i]
         i += 1
         if not has_ser or m.get("message_type") == "eliot:traceback":
             continue
         got = delivered.get(key_of(m), [])
         if len(got) > 1:
             ctx.violation("a typed message was delivered %d times to one destination" % len(got), case)
+            return
+        if got and declared is not None and any(k not in m for k in declared):
+            ctx.violation("a typed message lacking a declared field (%s) was delivered instead of being reported as a serialization failure"
+                          % [k for k in declared if k not in m], case)
             return
         if got:
             typed_delivered += 1
@@ -100,7 +104,65 @@ def oracle(ctx, case, real, rt):
     real["_typed"] = (typed_delivered, failures)
 
 
+def direct_writes(ctx, i):
+    """Model-free: dictionaries handed directly to Logger.write / MemoryLogger.write must never be modified,
+    neither during the call nor later (buffering, global fields and re-delivery must all work on copies)."""
+    import copy
+    import eliot
+    from eliot import _output
+
+    rng = ctx.rng("direct:%d" % i)
+    dst = _output.Logger._destinations
+    saved = (dst._destinations, dst._any_added, dst._globalFields)
+    dst.__init__()
+    held = []
+    problems = []
+    got = []
+    try:
+        logger = eliot.Logger()
+        mem = eliot.MemoryLogger()
+        mt = eliot.MessageType("d:typed", [eliot.Field("k", lambda v: {"ser": v}, "")])
+        n = rng.randint(3, 10)
+        add_at = rng.randrange(n + 1)
+        for step in range(n + 1):
+            if step == add_at:
+                eliot.add_destinations(got.append)
+            r = rng.random()
+            if r < 0.25:
+                eliot.add_global_fields(**{rng.choice(["g1", "g2", "k"]): step})
+            d = {"message_type": "d:typed", "k": [step, {"nested": step}], "task_uuid": "u", "task_level": [step + 1], "timestamp": 1.0}
+            snap = copy.deepcopy(d)
+            held.append((d, snap))
+            which = rng.random()
+            try:
+                if which < 0.4:
+                    logger.write(d)
+                elif which < 0.7:
+                    logger.write(d, mt._serializer)
+                elif which < 0.85:
+                    mem.write(d)
+                else:
+                    mem.write(d, mt._serializer)
+            except BaseException as e:  # noqa
+                problems.append("write raised %s" % type(e).__name__)
+            for dd, ss in held:
+                if dd != ss:
+                    problems.append("a dictionary passed to a logger's write was modified (step %d)" % step)
+                    break
+            if problems:
+                break
+    finally:
+        dst._destinations, dst._any_added, dst._globalFields = saved
+    return problems, len(got)
+
+
 def run(ctx):
+    for i in range(ctx.budget(150, 4000)):
+        problems, delivered = direct_writes(ctx, i)
+        ctx.case({"direct": i, "seed": ctx.seed}, nontrivial=delivered > 0, tags=["direct-write"], sample=(i < 1))
+        if problems:
+            ctx.violation(problems[0], {"direct": i, "seed": ctx.seed})
+            break
     syscorr.run_programs(ctx, ctx.budget(450, 15000), PROFILE, oracle,
                          nontrivial=lambda c, r, s: r.get("_typed", (0, 0))[0] >= 1 and (r["_typed"][1] >= 1 or r["_typed"][0] >= 3),
                          compare=["outcome", "offered", "accepted"])
@@ -108,6 +170,13 @@ def run(ctx):
 
 def replay(ctx, obj):
     case = obj["case"]
+    if "direct" in case:
+        ctx.seed = case["seed"]
+        problems, _ = direct_writes(ctx, case["direct"])
+        print(problems)
+        if problems:
+            ctx.violation(problems[0], case)
+        return
     real, rt = sysinterp.run_case(case)
     print(real["outcome"], rt.checks[:3])
     oracle(ctx, case, real, rt)
